@@ -41,6 +41,12 @@ SHAPES = {
     "qname": ["Dgate(2*{q1_2}+0.5, {q}) | %(m)s", "Sgate({q0_1}, k={qq}*{q12_0}) | %(m)s"],
     "long_names": ["Dgate({alpha}*{alpha_1}, {a_lpha}) | %(m)s"],
     "no_params": ["Dgate(%(f)s) | %(m)s"],
+    # one name in two roles: a parameter called like the variable it initialises, like an array, like a keyword / gate, like a loop variable
+    "same_name_scalar": ["float alpha = {alpha}", "Dgate(alpha, {alpha}*2) | %(m)s"],
+    "same_name_array": ["float array beta =", "    {beta}, %(f)s", "Gate(beta) | %(m)s", "Dgate({alpha}, beta[0]) | %(m)s"],
+    "same_name_array_only": ["float array gamma =", "    %(f)s, {gamma}", "Gate(gamma) | %(m)s"],
+    "same_name_keyword": ["Dgate(phi={phi}, r={Dgate}) | %(m)s"],
+    "same_name_loopvar": ["for int i in [1, 2]", "    Dgate({i}*i, {j}) | i"],
 }
 # arrays: (dtype, rows of elements) with 'a','b','c' = bare parameters, 'L' literal
 ARRAYS = {
